@@ -45,7 +45,7 @@ def is_module_abort(msg):
     return 'expression simplifies to' in msg or 'failed to simplify' in msg
 
 
-def build(extra_mods=(), force_assumed=(), drop_ghost=(), drop_contract=()):
+def build(extra_mods=(), force_assumed=(), drop_ghost=(), drop_contract=(), external_items=()):
     """Returns dict with text, registry (clauses), logs, assumed, fn line ranges."""
     by_mod, allc = load_contracts()
     # functions without a contract (new in this tree) that the verifier cannot take as they are: left unverified
@@ -126,6 +126,14 @@ def build(extra_mods=(), force_assumed=(), drop_ghost=(), drop_contract=()):
             lost_all.append((c_.name, why))
         spliced, ok = unsentinel(spliced, src)
         insertion_only = insertion_only and ok
+        for (m_, first_) in external_items:
+            # a module-level const/static of the edited tree that the verifier cannot take (mode error, unsupported
+            # initialiser): left outside verification; the functions that use it are then isolated individually
+            if m_ == m:
+                k_ = spliced.find('\n' + first_)
+                if k_ >= 0:
+                    spliced = spliced[:k_ + 1] + '#[verifier::external]\n' + spliced[k_ + 1:]
+                    logs[m].append('X-ITEM module-level item left outside verification (verifier cannot take it): ' + first_[:100])
         ghost = ''
         for t in [t for t in all_twins if t['module'] == m]:
             c = [c for c in allc if c.name == '%s::%s' % (m, t['twin'])]
@@ -224,6 +232,50 @@ def ghost_item_at(text, line):
             break
         pos = en
     return (mod_, best) if best else None
+
+
+def module_item_at(text, line):
+    """(module, first line) of the module-level const/static item of an EXTRACTED module that contains `line` of the
+    generated text, or None."""
+    import rustlex
+    lines = text.split('\n')
+    mod_, start_ = None, None
+    for i in range(min(line, len(lines)) - 1, -1, -1):
+        if lines[i].startswith('// ---- ghost additions') or lines[i].startswith('// ---- H2') or lines[i].startswith('} // @endmod'):
+            return None
+        if lines[i].startswith('verus! {') and i >= 1:
+            for j in range(i, max(i - 40, -1), -1):
+                mm = re.match(r'pub mod (\w+) \{', lines[j])
+                if mm:
+                    mod_, start_ = mm.group(1), i + 1
+                    break
+            break
+    if mod_ is None or mod_ in ('iso', 'iso_gf', 'iso_synd', 'convert'):
+        return None
+    end_ = start_
+    while end_ < len(lines) and not (lines[end_].startswith('} // @endmod') or lines[end_].startswith('// ---- ghost additions') or lines[end_].startswith('// ---- H2')):
+        end_ += 1
+    region = '\n'.join(lines[start_:end_])
+    msk = rustlex.mask(region)
+    off = sum(len(l) + 1 for l in lines[start_:line - 1])
+    pos = 0
+    for mm in re.finditer(r'(?m)^(?=[A-Za-z#])', msk):
+        st = mm.start()
+        if st < pos:
+            continue
+        j = rustlex.skip_attrs_and_docs(region, msk, st)
+        try:
+            en = rustlex.item_end(msk, j)
+        except Exception:
+            return None
+        if st <= off < en:
+            nl = region.find('\n', j)
+            first = region[j:nl if nl >= 0 else len(region)].rstrip()
+            if re.match(r'(pub(\([a-z]+\))?\s+)?(exec\s+)?(const|static)\s+\w+\s*:', first):
+                return (mod_, first)
+            return None
+        pos = en
+    return None
 
 
 def drop_items(text, first_lines, log):
